@@ -169,6 +169,42 @@ def uppercase(R, rep):
         rep.unresolved("R4", "Transaction-ctors", f"{n} constructions of Transaction in library code (DSL consumer and JSON deserializer expected)")
 
 
+def dsl_ticker_consumers(ctx, R, rep):
+    """R4 for the DSL, per command: the upper-casing lives in the consumer of the `ticker` token, so every consumer of a rule
+    that has a `ticker` child must obtain the ticker THROUGH that consumer (match_nodes! `ticker(t)` expands to a call of it) and
+    not from the node's raw text. Decided on MIR: the region of `CgtParser::<rule>` contains a call of `CgtParser::ticker`."""
+    from grammar import Grammar
+    S = ctx.S
+    if S is None or "error" in S.get("grammar", {}):
+        rep.unresolved("R4", "grammar", "grammar facts unavailable")
+        return
+    g = Grammar(S["grammar"])
+    F = R.F
+    tick = [b for b in F.bodies.values() if b.id.endswith("parser::CgtParser::ticker")]
+    if len(tick) != 1:
+        rep.unresolved("R4", "ticker-consumer", f"{len(tick)} consumers of the `ticker` token")
+        return
+    folds = any(parse_callee(t["callee"])[2] in ("to_uppercase", "to_ascii_uppercase") for _, t in tick[0].calls())
+    rep.ob("R4", "dsl:ticker-consumer-folds-case", folds, "the `ticker` consumer upper-cases" if folds else
+           "the `ticker` consumer returns the text as written", tick[0].loc(), key="R4:dsl:ticker-consumer")
+    n = 0
+    for name in g.order:
+        if g.ty(name) != "normal" or g.is_atomic(name) or "ticker" not in g.alphabet(name):
+            continue
+        cb = F.bodies.get(f"cgt_core::parser::CgtParser::{name}")
+        if cb is None:
+            continue
+        n += 1
+        rg = R.region(cb, depth=3)
+        ok = any(it["term"]["callee"] == tick[0].id for it in rg.items)
+        rep.ob("R4", f"dsl:{name}:ticker-through-consumer", ok, f"`{name}` obtains its ticker from the `ticker` consumer" if ok else
+               f"the consumer of `{name}` does not call the `ticker` consumer: its ticker is the raw text, so `aapl` and `AAPL` are two securities "
+               "for this command only", cb.loc(), key=f"R4:dsl:{name}:ticker-raw")
+    rep.count("dsl_rules_with_ticker_child", n)
+    if n < 5:
+        rep.unresolved("R4", "dsl-commands", f"only {n} grammar rules with a `ticker` child have a consumer (7 commands expected)")
+
+
 def shared_index_space(R, rep, rule="R5"):
     """The claims table and the cost-offset table are shared by all securities and keyed by a line's position in the whole
     transaction list. A position obtained from `enumerate` is that position only if nothing was dropped from the stream
@@ -209,3 +245,4 @@ def run(ctx, rep):
     lookahead_guards(R, rep)
     merge_guard(R, rep)
     uppercase(R, rep)
+    dsl_ticker_consumers(ctx, R, rep)
